@@ -463,6 +463,12 @@ where
             });
         }
 
+        // Verification hook H5b: if user code (`Hash`, `Eq`, `assemble`, the event callback)
+        // unwinds out of this call before any commit record was written, the guard leaves an
+        // `op=abort` record (the revision queue has already been touched above).
+        #[cfg(salsa_rs_salsa_verif)]
+        let _verif_abort_guard = verif_hook::AbortGuard::new(self, current_revision);
+
         // Hash the value before acquiring the lock.
         let hash = self.hasher.hash_one(&key);
 
@@ -490,6 +496,21 @@ where
             // Validate the value in this revision to avoid reuse.
             if metadata.last_interned_at < current_revision {
                 metadata.last_interned_at = current_revision;
+
+                // Verification hook H5b: the stamp is written before the user's event
+                // callback runs; if that unwinds, this is the only record of the call.
+                #[cfg(salsa_rs_salsa_verif)]
+                self.verif_record_intern_phase(
+                    "touch",
+                    "fast",
+                    shard_index,
+                    shard,
+                    hash,
+                    current_revision,
+                    zalsa_local.active_query().map(|(_, stamp)| stamp.durability),
+                    Some(verif_before),
+                    (*metadata, *durability),
+                );
 
                 zalsa.event(&|| {
                     Event::new(EventKind::DidValidateInternedValue {
@@ -680,6 +701,23 @@ where
             };
         }
 
+        // Verification hook H5b: the slot has been republished (fields, metadata, key map,
+        // LRU); what follows (`clear_memos`, the reuse event) calls the user's event callback
+        // and may unwind.  The record reads the slot as it is now.
+        #[cfg(salsa_rs_salsa_verif)]
+        self.verif_record_intern_phase(
+            "commit",
+            "reuse",
+            shard_index,
+            shard,
+            hash,
+            current_revision,
+            zalsa_local.active_query().map(|(_, stamp)| stamp.durability),
+            Some(verif_before),
+            // SAFETY: We hold the lock for the shard containing the value.
+            unsafe { (*value.lru.metadata.get(), *value.durability.get()) },
+        );
+
         #[cfg(salsa_rs_salsa_verif)]
         crate::verif_life::emit(|| {
             format!(
@@ -788,6 +826,22 @@ where
         // across revisions.
         report_tracked_read_if_reusable::<C>(zalsa_local, index, current_revision, durability);
 
+        // Verification hook H5b: the new slot is published; the event callback below is user
+        // code and may unwind.
+        #[cfg(salsa_rs_salsa_verif)]
+        self.verif_record_intern_phase(
+            "commit",
+            "cold",
+            shard_index,
+            shard,
+            hash,
+            current_revision,
+            zalsa_local.active_query().map(|(_, stamp)| stamp.durability),
+            None,
+            // SAFETY: We hold the lock for the shard containing the value.
+            unsafe { (*value.lru.metadata.get(), *value.durability.get()) },
+        );
+
         zalsa.event(&|| {
             Event::new(EventKind::DidInternValue {
                 key: index,
@@ -867,6 +921,12 @@ where
         // SAFETY: We hold the lock for the shard containing every value passed to `hasher`.
         let hasher = |value: &ValueKey| unsafe { self.value_hash(value.value::<C>()) };
 
+        // Verification hook H5b: `inner` calls the user's `Hash` (rehash on growth, and the
+        // debug assertion after the insertion); if that unwinds, the guard records how far the
+        // insertion got.
+        #[cfg(salsa_rs_salsa_verif)]
+        let verif_insert_guard = verif_hook::InsertGuard::new(self, shard, value, hash);
+
         // SAFETY: We hold the lock for `shard`; `value_key` and `ptr_from_value` were derived from
         // the same live value in that shard, and `reusable` was read from that value.
         unsafe {
@@ -879,6 +939,9 @@ where
                 &hasher,
             )
         };
+
+        #[cfg(salsa_rs_salsa_verif)]
+        verif_insert_guard.disarm();
     }
 
     /// Finds a reusable slot and reconstructs its typed value.
@@ -1198,6 +1261,107 @@ where
         )
     }
 
+    /// Verification hook H5b: a record written in the middle of `intern_id`, at the point after
+    /// which only user callbacks remain (`commit`), or after the first write of the fast path
+    /// (`touch`).  Same fields as the final `op=intern` record; `slot` is what the caller read
+    /// from the slot itself (id, stamp, durability) at that point.
+    #[allow(clippy::too_many_arguments)]
+    fn verif_record_intern_phase(
+        &self,
+        phase: &str,
+        path: &str,
+        shard_index: usize,
+        shard: &IngredientShard,
+        hash: u64,
+        current_revision: Revision,
+        stamp: Option<Durability>,
+        before: Option<(Revision, Durability, Id)>,
+        slot: (EntryMetadata, Durability),
+    ) {
+        let (metadata, durability) = slot;
+        let stamp = match stamp {
+            Some(durability) => format!("q{}", durability.index()),
+            None => "out".to_string(),
+        };
+        let before = match before {
+            Some((last_interned_at, durability, old_id)) => format!(
+                "lia_before={} dur_before={} gen_before={}",
+                last_interned_at.as_usize(),
+                durability.index(),
+                old_id.generation()
+            ),
+            None => "lia_before=- dur_before=- gen_before=-".to_string(),
+        };
+        verif_hook::mark_committed();
+        verif_hook::push(format!(
+            "op={} path={} shard={} hash={} idx={} gen={} stamp={} {} lia_after={} dur_after={} {}",
+            phase,
+            path,
+            shard_index,
+            hash,
+            metadata.id.index(),
+            metadata.id.generation(),
+            stamp,
+            before,
+            metadata.last_interned_at.as_usize(),
+            durability.index(),
+            self.verif_common(shard, current_revision),
+        ));
+    }
+
+    /// Verification hook H5b: the record left by [`verif_hook::InsertGuard`] when `insert_value`
+    /// unwinds: the slot as allocated, whether it is linked into the LRU, and whether the key
+    /// map gained an entry.
+    fn verif_record_insert_unwound(
+        &self,
+        shard: &IngredientShard,
+        value: &Value<C>,
+        hash: u64,
+        keys_before: usize,
+    ) {
+        // SAFETY: The caller (the guard inside `insert_value`) runs under the shard lock.
+        let (metadata, durability) =
+            unsafe { (*value.lru.metadata.get(), *value.durability.get()) };
+        verif_hook::mark_committed();
+        verif_hook::push(format!(
+            "op=insert-unwound path=cold shard={} hash={} idx={} gen={} linked={} inserted={} lia_after={} dur_after={} {}",
+            value.shard,
+            hash,
+            metadata.id.index(),
+            metadata.id.generation(),
+            value.lru.link.is_linked() as u8,
+            (shard.key_map.len() > keys_before) as u8,
+            metadata.last_interned_at.as_usize(),
+            durability.index(),
+            self.verif_common(shard, verif_hook::call_revision()),
+        ));
+    }
+
+    /// Verification hook H5b: the record left by [`verif_hook::AbortGuard`].
+    fn verif_record_intern_abort(&self, current_revision: Revision) {
+        let queue: Vec<String> = self
+            .revision_queue
+            .revisions
+            .iter()
+            .map(|revision| revision.load().as_usize().to_string())
+            .collect();
+        let revisions = if C::REVISIONS == IMMORTAL {
+            "max".to_string()
+        } else {
+            C::REVISIONS.get().to_string()
+        };
+        verif_hook::push(format!(
+            "op=abort ing={} name={} t={:?} rev={} revisions={} nshards={} queue=[{}]",
+            self.ingredient_index.as_u32(),
+            C::DEBUG_NAME,
+            std::thread::current().id(),
+            current_revision.as_usize(),
+            revisions,
+            self.shards.len(),
+            queue.join(","),
+        ));
+    }
+
     #[allow(clippy::too_many_arguments)]
     fn verif_record_intern(
         &self,
@@ -1274,6 +1438,104 @@ pub mod verif_hook {
     use rustc_hash::FxBuildHasher;
 
     static TRACE: std::sync::Mutex<Vec<String>> = std::sync::Mutex::new(Vec::new());
+
+    thread_local! {
+        /// H5b: whether the `intern_id` call running on this thread has written a record.
+        static COMMITTED: std::cell::Cell<bool> = const { std::cell::Cell::new(true) };
+        /// H5b: the current revision of the `intern_id` call running on this thread.
+        static CALL_REVISION: std::cell::Cell<crate::Revision> =
+            const { std::cell::Cell::new(crate::Revision::start()) };
+    }
+
+    /// H5b: the revision the innermost `intern_id` call on this thread runs in.
+    pub(super) fn call_revision() -> crate::Revision {
+        CALL_REVISION.with(|revision| revision.get())
+    }
+
+    /// H5b: a `touch`/`commit` record was written by the current `intern_id` call.
+    pub(super) fn mark_committed() {
+        COMMITTED.with(|committed| committed.set(true));
+    }
+
+    /// H5b: writes an `op=insert-unwound` record when `insert_value` unwinds (user `Hash`).
+    pub(super) struct InsertGuard<'a, C: super::Configuration> {
+        ingredient: &'a super::IngredientImpl<C>,
+        shard: *const super::IngredientShard,
+        value: &'a super::Value<C>,
+        hash: u64,
+        keys_before: usize,
+        armed: bool,
+    }
+
+    impl<'a, C: super::Configuration> InsertGuard<'a, C> {
+        pub(super) fn new(
+            ingredient: &'a super::IngredientImpl<C>,
+            shard: &super::IngredientShard,
+            value: &'a super::Value<C>,
+            hash: u64,
+        ) -> Self {
+            Self {
+                ingredient,
+                shard: shard as *const _,
+                value,
+                hash,
+                keys_before: shard.key_map.len(),
+                armed: true,
+            }
+        }
+
+        pub(super) fn disarm(mut self) {
+            self.armed = false;
+        }
+    }
+
+    impl<C: super::Configuration> Drop for InsertGuard<'_, C> {
+        fn drop(&mut self) {
+            if self.armed && std::thread::panicking() {
+                // SAFETY: the guard lives inside `insert_value`, whose caller holds the lock of
+                // this shard; the `&mut` borrow handed to the insertion has ended (it unwound).
+                let shard = unsafe { &*self.shard };
+                self.ingredient.verif_record_insert_unwound(
+                    shard,
+                    self.value,
+                    self.hash,
+                    self.keys_before,
+                );
+            }
+        }
+    }
+
+    /// H5b: writes an `op=abort` record when `intern_id` unwinds before any other record.
+    pub(super) struct AbortGuard<'a, C: super::Configuration> {
+        ingredient: &'a super::IngredientImpl<C>,
+        current_revision: crate::Revision,
+        outer: bool,
+    }
+
+    impl<'a, C: super::Configuration> AbortGuard<'a, C> {
+        pub(super) fn new(
+            ingredient: &'a super::IngredientImpl<C>,
+            current_revision: crate::Revision,
+        ) -> Self {
+            let outer = COMMITTED.with(|committed| committed.replace(false));
+            CALL_REVISION.with(|revision| revision.set(current_revision));
+            Self {
+                ingredient,
+                current_revision,
+                outer,
+            }
+        }
+    }
+
+    impl<C: super::Configuration> Drop for AbortGuard<'_, C> {
+        fn drop(&mut self) {
+            let committed = COMMITTED.with(|committed| committed.replace(self.outer));
+            if !committed && std::thread::panicking() {
+                self.ingredient
+                    .verif_record_intern_abort(self.current_revision);
+            }
+        }
+    }
 
     pub(super) fn push(line: String) {
         TRACE
